@@ -445,8 +445,10 @@ def slice_(t, lo, hi):
 
 
 def getitem(t, idx):
-    if tag(t) == 'dict' and not is_const(idx) and tag(idx) not in ('phi', 'raise', 'enum') and 0 < len(t[1]) <= 32 \
-            and all(is_const(k) for k, _ in t[1]):
+    if tag(t) == 'dict' and len(t[1]) == 0 and tag(idx) not in ('phi', 'raise'):
+        return raise_('KeyError')          # nothing is in an empty mapping
+    if tag(t) == 'dict' and tag(idx) not in ('phi', 'raise', 'enum') and 0 < len(t[1]) <= 32 \
+            and (not is_const(idx) or not all(is_const(k) or tag(k) == 'enum' for k, _ in t[1])):
         # look-up by a symbolic key in a table with constant keys: a case analysis over the keys
         out = raise_('KeyError')
         for k, v in reversed(t[1]):
@@ -740,6 +742,11 @@ def _cmp_const(a, b):
 def eq(a, b):
     if a == b and not _contains_opaque(a):
         return TRUE
+    # injective encodings: equal encodings (same form) of equal things
+    if is_op(a, 'SEC') and is_op(b, 'SEC') and a[3] == b[3]:
+        return eq(a[2], b[2])
+    if is_op(a, 'HEX') and is_op(b, 'HEX'):
+        return eq(a[2], b[2])
     if _all_const(a, b):
         return const(a[1] == b[1] and (type(a[1]) is type(b[1]) or
                                        (isinstance(a[1], (int, float)) and isinstance(b[1], (int, float)))))
@@ -757,6 +764,11 @@ def eq(a, b):
     for x, y in ((a, b), (b, a)):
         if is_op(x, 'GETITEM') and is_op(x[2], 'STR') and type_of(x[2][2]) == 'int' and is_const(y) \
                 and isinstance(y[1], str) and (len(y[1]) != 1 or y[1] not in '0123456789-'):
+            return FALSE
+    # first byte of a SEC encoding: 02/03 (compressed) or 04 (uncompressed), never anything else
+    for x, y in ((a, b), (b, a)):
+        if is_op(x, 'GETITEM') and is_op(x[2], 'SEC') and x[3] == const(0) and is_const(y) and isinstance(y[1], int) \
+                and is_const(x[2][3]) and y[1] not in ((2, 3) if x[2][3][1] else (4,)):
             return FALSE
     # values of different known static types are never equal
     ta, tb = type_of(a), type_of(b)
@@ -1167,10 +1179,22 @@ def _atoms(c, out):
         out.add(c)
 
 
+HOIST_BUDGET = [0, 3000000]     # [term nodes visited by the current top-level call, limit]
+
+
 def hoist(t, _depth=0):
     """Canonical decision-tree form: Shannon expansion over the atomic predicates of all Phi conditions, in a fixed
     order; compound conditions (and/or/not) are decided by their atoms."""
-    conds = phi_conditions(t)
+    if _depth == 0:
+        HOIST_BUDGET[0] = 0
+    conds = []
+    for x in walk(t):
+        HOIST_BUDGET[0] += 1
+        if tag(x) == 'phi' and x[1] not in conds:
+            conds.append(x[1])
+    if HOIST_BUDGET[0] > HOIST_BUDGET[1]:
+        raise BudgetExceeded('decision-tree normal form visits more than %d term nodes: too many independent conditions to compare'
+                             % HOIST_BUDGET[1])
     if not conds or _depth > 80:
         return t
     atoms = set()
@@ -1180,13 +1204,28 @@ def hoist(t, _depth=0):
         return t
     c = sorted(atoms, key=repr)[0]
     a = assume(t, {c})
+    b = assume(t, {not_(c)})
     if is_op(c, 'EQ'):
         # under x == <constant> the two are interchangeable: use the constant (so `return x` and `return 0` agree)
+        done = False
         for x, y in ((c[2], c[3]), (c[3], c[2])):
             if is_const(y) and not is_const(x) and isinstance(y[1], (int, str, bytes)) and not isinstance(y[1], bool):
                 a = subst(a, {x: y})
+                done = True
                 break
-    b = assume(t, {not_(c)})
+        if not done:
+            # two names for one value: written with either name the branch says the same; prefer the spelling that makes
+            # it coincide with the other branch
+            hb = hoist(b, _depth + 1)
+            for x, y in ((c[2], c[3]), (c[3], c[2])):
+                if tag(x) == 'sym' and tag(y) in ('sym', 'op') and not contains(y, lambda z, x=x: z == x):
+                    a2 = subst(a, {x: y})
+                    if hoist(a2, _depth + 1) == hb:
+                        return hb
+            for x, y in ((c[2], c[3]), (c[3], c[2])):
+                if tag(x) == 'sym' and tag(y) in ('sym', 'op') and not contains(y, lambda z, x=x: z == x):
+                    a = subst(a, {x: y})
+                    break
     return phi(c, hoist(a, _depth + 1), hoist(b, _depth + 1))
 
 
